@@ -241,13 +241,13 @@ theorem find_unique {feed : List Feed} (hn : (feed.map (·.id)).Nodup) {f : Feed
 theorem votes_preserved (c : Cfg) (n : ℕ) (base : List Base) (feed : List Feed)
     (hfeed : (feed.map (·.id)).Nodup) (hcons : FeedConsistent base feed)
     (f : Feed) (hf : f ∈ feed) (hc : complete f = true) :
-    (∃ r ∈ dataRows c.policy n base feed, r.id = f.id ∧ r.res = f.res.map (fun x => x.getD 0) ∧ r.pev = f.pev) ∨
+    (∃ r ∈ dataRows c.policy n base feed, r.id = f.id ∧ r.res = f.res.map (fun x => x.getD 0) ∧ r.pev = f.pev.getD 0) ∨
     f ∈ (split c n base feed).unexp := by
   by_cases hb : ∃ b ∈ base, b.id = f.id
   · obtain ⟨b, hbm, hbid⟩ := hb
     left
     have hfind := find_unique hfeed hf hbid.symm (hcons f hf b hbm hbid.symm)
-    refine ⟨⟨b.id, b.state, b.bw, f.pev, f.res.map (fun r => r.getD 0), f.rw, turnoutFactor f.rw b.bw⟩, ?_, hbid, rfl, rfl⟩
+    refine ⟨⟨b.id, b.state, b.bw, f.pev.getD 0, f.res.map (fun r => r.getD 0), f.rw, turnoutFactor f.rw b.bw⟩, ?_, hbid, rfl, rfl⟩
     unfold dataRows
     refine List.mem_filterMap.mpr ⟨b, hbm, ?_⟩
     unfold joinRow
@@ -302,9 +302,14 @@ end ElexModel.Agg
 namespace ElexModel.Units
 /-! ### non-vacuity: unexpected unit, blocklisted unit, unit missing from the feed, NaN row, both policies -/
 def exBase : List Base := [⟨1, 0, 100⟩, ⟨2, 0, 50⟩, ⟨3, 0, 0⟩, ⟨4, 1, 80⟩]
-def exFeed : List Feed := [⟨1, 0, 100, [some 90], some 90⟩, ⟨2, 0, 40, [some 10], some 10⟩,
-  ⟨3, 0, 100, [some 5], some 5⟩, ⟨9, 0, 100, [some 7], some 7⟩]
+def exFeed : List Feed := [⟨1, 0, some 100, [some 90], some 90⟩, ⟨2, 0, some 40, [some 10], some 10⟩,
+  ⟨3, 0, some 100, [some 5], some 5⟩, ⟨9, 0, some 100, [some 7], some 7⟩]
 def exC (p : Policy) : Cfg := ⟨p, 100, 1/2, 2, [], [], [], []⟩
+
+/-- a feed row with votes but no expected-vote figure is an outstanding unit (fix F-20), under both policies -/
+def exFeedNoPev : List Feed := [⟨1, 0, none, [some 90], some 90⟩, ⟨2, 0, some 100, [some 10], some 40⟩]
+example : (split (exC .drop) 1 exBase exFeedNoPev).nonrep.map (·.id) = [1] ∧
+    (split (exC .zero) 1 exBase exFeedNoPev).nonrep.map (·.id) = [1, 4] := by decide +kernel
 
 example : (split (exC .drop) 1 exBase exFeed).ids = [1, 2, 9, 3] := by decide +kernel
 example : (split (exC .zero) 1 exBase exFeed).ids = [1, 2, 4, 9, 3] := by decide +kernel
